@@ -689,10 +689,13 @@ func c05Subrs(r *run.Run) {
 		})
 
 	r.Explore(explore.Config{Name: "C05.subr-nesting"},
-		"call nesting depth 1..12 alternating local/global; endchar inside the innermost subroutine; innermost subroutine without return",
+		"call nesting depth 1..12 alternating local/global; endchar inside the innermost subroutine; innermost subroutine without return; with or without path operators after every call (dead code once an endchar inside a subroutine has ended the glyph)",
 		func(c *explore.Ctx) {
 			depth := 1 + c.Choose(12, "depth")
 			end := c.Choose(3, "innermost ends with") // return, endchar, nothing
+			// path operators between a call and the return / the end of the glyph: they run when the callee
+			// returns and are dead code when an endchar inside the callee has ended the glyph
+			after := c.Bool("operators after the calls")
 			var ls, gs [][]byte
 			for d := 0; d < depth; d++ {
 				p := &t2prog{}
@@ -703,6 +706,9 @@ func c05Subrs(r *run.Run) {
 						p.num(float64((d+1)/2 - 107)).op(oCallsubr)
 					} else {
 						p.num(float64((d+1)/2 - 107)).op(oCallgsubr)
+					}
+					if after {
+						p.nums(7, float64(d+1)).op(oRlineto)
 					}
 					p.op(oReturn)
 				} else {
@@ -720,11 +726,14 @@ func c05Subrs(r *run.Run) {
 				}
 			}
 			p := (&t2prog{}).nums(0, 0).op(oRmoveto).num(-107).op(oCallsubr)
-			if end != 1 {
+			if after {
+				p.nums(9, 9).op(oRlineto)
+			}
+			if end != 1 || after {
 				p.op(oEndchar)
 			}
-			c.Sample(func() any { return map[string]any{"depth": depth, "end": end} })
-			t2Compare(c, fmt.Sprintf("nesting end=%d", end), t2Case{code: p.code, lsubrs: ls, gsubrs: gs}, fmt.Sprintf("depth %d end %d", depth, end))
+			c.Sample(func() any { return map[string]any{"depth": depth, "end": end, "operators after the calls": after} })
+			t2Compare(c, fmt.Sprintf("nesting end=%d after=%v", end, after), t2Case{code: p.code, lsubrs: ls, gsubrs: gs}, fmt.Sprintf("depth %d end %d operators after the calls %v", depth, end, after))
 		})
 }
 
